@@ -27,9 +27,11 @@ class LoopSummary(Event):
     """k iterations of a loop verified by invariant; `alts` are the traces (lists of events) that
     one normally-completing iteration can contribute."""
 
-    def __init__(self, loop_id, alts, line, held=()):
+    def __init__(self, loop_id, alts, line, held=(), items=None, iterable=None):
         super().__init__('loop', loop_id, line=line, held=held)
         self.alts = alts
+        self.items = items if items is not None else []
+        self.iterable = iterable
 
 
 class State:
